@@ -13,6 +13,9 @@ is changed.  What this module adds:
       fails by itself with any other exception (no user callback raised) => snapshot unchanged   ("failing-op")
       Tree.copy() / Node.copy() => every tree that existed before is unchanged   ("copy-purity")
       add(node) / add(tree) / copy_to from another tree => the source tree is unchanged   ("copy-purity")
+      sort / in-place filter, clean or with a raising callback => only the documented partial effect: sort permutes
+          the (parent, node, payload) rows of the one tree and leaves registry and index alone, filter only removes rows
+          ("partial-effect")
   plus the C01-C03 oracles of mut.py after every step (also after an escaped callback exception).
 * generators: ``invalid_groups`` (every operation with every documented-invalid argument on every forest
   <= N nodes, two trees so that nodes / trees of another tree can be named), ``fault_descs`` (for every
@@ -80,6 +83,46 @@ def snap_diff(a, b):
     return "?"
 
 
+def obs_rows(tree_obs):
+    """(parent id, node id, payload) rows of one observed tree = Coq `rows 0 forest`"""
+    out = []
+
+    def go(p, lst):
+        for nid_, payload, kids in lst:
+            out.append((p, nid_, H.digest(payload)))
+            go(nid_, kids)
+
+    go(0, tree_obs[0])
+    return out
+
+
+def partial_effect_fail(step):
+    """sort (clean or with a raising key): per tree the rows are permuted, registry and index untouched;
+    in-place filter (clean or with a raising predicate): every remaining row was there before."""
+    op = step["op"]
+    if op[0] not in ("sort", "filter") or step["res"] == [1, mut.EMODEL]:
+        return None
+    b, a = step["before"], step["after"]
+    if len(a) != len(b):
+        return f"{op[0]} changed the number of trees"
+    for ti, (tb, ta) in enumerate(zip(b, a)):
+        rb, ra = obs_rows(tb), obs_rows(ta)
+        if ti != op[1]:
+            if tb != ta:
+                return f"{op[0]} changed tree {ti}, which it does not name"
+            continue
+        if op[0] == "sort":
+            if sorted(rb) != sorted(ra):
+                return "sort: a node changed its parent or payload, or was lost / duplicated"
+            if tb[1] != ta[1] or tb[2] != ta[2]:
+                return "sort changed the node registry or the clone index"
+        else:
+            sb = set(rb)
+            if any(r not in sb for r in ra) or len(set(ra)) != len(ra):
+                return "filter: a remaining node has another parent / payload than before, or appears twice"
+    return None
+
+
 def struct_fail(w: World):
     """first failure of the C01-C03 oracles on any tree of the world"""
     for t in w.trees:
@@ -142,6 +185,9 @@ def replay13(hist, keep_world=False) -> mut.Run:
         m = mut.refusal_oracle(step)
         if m:
             run.fails.append((si, "refusal", m))
+        m = partial_effect_fail(step)
+        if m:
+            run.fails.append((si, "partial-effect", m + (" [after an escaped callback exception]" if injected else "")))
         if res[0] == 1 and res[1] in REFUSALS and snap0 != snap1:
             run.fails.append((si, "deep-refusal", f"{op[0]} was refused with {H.ERR_NAMES[res[1]]} but {snap_diff(snap0, snap1)}"))
         if res[0] == 1 and res[1] not in REFUSALS and not injected and snap0 != snap1:
